@@ -13,7 +13,18 @@ import networkx as nx
 from . import proto as P, real as R, gen as G, render as RD, tucangen as TG, iso as ISO, validator as VAL
 
 from tucan.graph_utils import graph_from_molecule, permute_molecule
-from tucan.canonicalization import canonicalize_molecule, partition_molecule_by_attribute, refine_partitions
+from tucan.canonicalization import canonicalize_molecule
+import tucan.canonicalization as _CAN
+
+
+def partition_molecule_by_attribute(*a, **k):
+    """module-level helper of the library (used by its tests and docs, but not one of the operations the properties
+    name): resolved at call time, so that a refactoring which moves it shows as a lost correspondence, not a crash"""
+    return _CAN.partition_molecule_by_attribute(*a, **k)
+
+
+def refine_partitions(*a, **k):
+    return _CAN.refine_partitions(*a, **k)
 from tucan.serialization import serialize_molecule
 from tucan.parser.parser import graph_from_tucan, TucanParserException
 from tucan.io import graph_from_molfile_text, graph_to_molfile
@@ -1042,9 +1053,15 @@ def work_C09(run, rng, budget):
             run.corr(*R.op_wrap(body), "exact")
             out = []
             from tucan.io import molfile_writer as MW, molfile_v3000_reader as V3
-            MW._add_v30_line(out, body)
+            wrap, splice = getattr(MW, "_add_v30_line", None), getattr(V3, "_concat_lines_with_dash", None)
+            if wrap is None or splice is None:
+                # the two private helpers have gone: the line-level probe has nothing to call (the file-level
+                # write/read probe above still exercises wrapping through the public functions)
+                run.stats["wrap_helpers_missing"] += 1
+                continue
+            wrap(out, body)
             run.corr(*R.op_splice(out + ["M  END"]), "exact")
-            back, err = safe(V3._concat_lines_with_dash, out + ["M  END"])
+            back, err = safe(splice, out + ["M  END"])
             run.case(("C09wrap", body), len(body) > 72)
             run.stats["wrap_len:" + str(base)] += 1
             if err is not None or back[0] != "M  V30 " + body:
@@ -1400,7 +1417,9 @@ def work_C15(run, rng, budget):
         atoms = {i: {"element_symbol": "C", "atomic_number": 6, "partition": 0} for i in range(n)}
         g = graph_from_molecule(atoms, {e: {} for e in edges})
         queue_pipeline_ops(run, g)
-        p0 = partition_molecule_by_attribute(g, "invariant_code")
+        p0, _err = safe(partition_molecule_by_attribute, g, "invariant_code")
+        if p0 is None:
+            continue
         run.corr(*R.op_refine(p0), "observable")
     for m in molecules(run, rng, 30 * budget):
         queue_pipeline_ops(run, mol_graph(m))
